@@ -233,7 +233,11 @@ Definition enforced (c : config) : limits :=
       to the advertised values; connIDManager.SetConnectionIDLimit stores the advertised
       active_connection_id_limit and Add compares with max(MaxActiveConnectionIDs, limit). *)
 Definition protoMaxStreamCount : Z := 2 ^ 60.        (* protocol.MaxStreamCount *)
-Definition maxDurationMs : Z := 9223372036854775807 / nsPerMs.   (* math.MaxInt64 / time.Millisecond *)
+(* u_connection.go noIdleTimeout = time.Duration(math.MaxInt64 / 4): "no idle timeout" as a Config value *)
+Definition noIdleNs : Z := 9223372036854775807 / 4.
+(* does a max_idle_timeout value (ns) announce an idle timeout at all? (0 / absent and absurdly large
+   values do not) *)
+Definition adv_idle_fin (x : Z) : bool := (0 <? x) && (x <? noIdleNs).
 
 Definition cover_config (a : limits) (c : config) : config :=
   let isw := Z.max (Z.max (Z.max (c_isw c) (l_sd_bl a)) (l_sd_br a)) (l_sd_uni a) in
@@ -242,7 +246,10 @@ Definition cover_config (a : limits) (c : config) : config :=
       (Z.max (c_mis c) (Z.min (l_s_bidi a) protoMaxStreamCount))
       (Z.max (c_mius c) (Z.min (l_s_uni a) protoMaxStreamCount))
       (c_dg c || (0 <? l_dgram a))
-      (if l_idle a / nsPerMs <=? maxDurationMs then Z.max (c_idle c) (l_idle a) else c_idle c).
+      (* max_idle_timeout: raised to the advertised value; "no idle timeout" when none is advertised *)
+      (if 0 <? l_idle a then
+         (if l_idle a / nsPerMs <=? noIdleNs / nsPerMs then Z.max (c_idle c) (l_idle a) else noIdleNs)
+       else noIdleNs).
 
 Definition enforced_spec (a : limits) (c : config) : limits :=
   let e := enforced (cover_config a c) in
@@ -411,7 +418,7 @@ Definition peer_ok (e : env) (s : state) (x : ev) : bool :=
   | EvGrant _ _ => true
   | EvRetireCID => true
   | EvSilence d peer_idle pto3 =>
-    (0 <=? d) && (0 <=? peer_idle) && (0 <=? pto3) &&
+    (0 <=? d) && (d <? noIdleNs) && (0 <=? peer_idle) && (0 <=? pto3) &&   (* no history lasts 73 years *)
     match peer_idle_view (l_idle (e_adv e)) peer_idle with None => true | Some t => d <? t end
   end.
 
@@ -492,10 +499,10 @@ Definition covers (adv enf : limits) : Prop :=
   l_s_uni adv <= l_s_uni enf /\
   l_cid adv <= l_cid enf /\
   dgram_cap adv <= l_dgram enf /\
-  (0 < l_idle adv /\ l_idle adv <= l_idle enf).
+  (if adv_idle_fin (l_idle adv) then l_idle adv <= l_idle enf else noIdleNs <= l_idle enf).
 
 Definition coversb (adv enf : limits) : list bool :=
   [l_max_data adv <=? l_max_data enf; l_sd_bl adv <=? l_sd_bl enf; l_sd_br adv <=? l_sd_br enf;
    l_sd_uni adv <=? l_sd_uni enf; l_s_bidi adv <=? l_s_bidi enf; l_s_uni adv <=? l_s_uni enf;
    l_cid adv <=? l_cid enf; dgram_cap adv <=? l_dgram enf;
-   (0 <? l_idle adv) && (l_idle adv <=? l_idle enf)].
+   if adv_idle_fin (l_idle adv) then l_idle adv <=? l_idle enf else noIdleNs <=? l_idle enf].
